@@ -3,8 +3,8 @@
 usage: keep_seeded.py <ID> <n> "<what it needs to manifest>" """
 import sys, os, re, json, shutil
 ID, N, needs = sys.argv[1], sys.argv[2], sys.argv[3]
-src = f"/tmp/seeded_out/{ID}"
-dst = f"/verif/seeded/{ID}-{N}"
+src = os.environ.get("SEEDED_DIR", "/tmp/seeded_out") + f"/{ID}"
+dst = f"/verif/seeded/{ID}-{os.environ.get('SEEDED_TAG', '')}{N}"
 os.makedirs(dst, exist_ok=True)
 shutil.copy(f"{src}/patch{N}.diff", f"{dst}/patch.diff")
 for ext in ("rs", "sh"):
